@@ -190,8 +190,7 @@ func platformRequestID(tr *Trace, tag string) string {
 	return id
 }
 
-func c06Check(c c06Case) kit.Outcome {
-	var out kit.Outcome
+func c06Check(c c06Case) (out kit.Outcome) {
 	sc := c.scenario()
 	run := runHost(sc)
 	if run.Infra != "" {
@@ -200,6 +199,7 @@ func c06Check(c c06Case) kit.Outcome {
 	}
 	tr := run.Trace
 	out.Artifacts = run.diag()
+	defer attributeStale(&out, tr, "C06")
 	out.Sample = c
 	for g, f := range c.Faults {
 		out.Label(fmt.Sprintf("gen%d:%s.%s", g, f.Who, f.Point))
